@@ -519,6 +519,25 @@ class Builder:
                 # a checkpoint that only holds a variable comparison still needs the thread context
                 cid = new_cp(deps, ctx)
                 action["dep"] = ("checkpoint", cid)
+            elif edit is None and rng.random() < 0.2 and [c for c in s["checkpoints"] if c["ctx"] is not None and c["ctx"][1] in [g["id"] for g, _ in visible_vars]
+                                                          and any(x["dep"] == ("checkpoint", c["id"]) for x in s["actions"])]:
+                # several threaded actions -- of this group or of groups nested in one another -- wait for ONE checkpoint
+                shared = rng.choice([c for c in s["checkpoints"] if c["ctx"] is not None and c["ctx"][1] in [g["id"] for g, _ in visible_vars]
+                                     and any(x["dep"] == ("checkpoint", c["id"]) for x in s["actions"])])
+                action["dep"] = ("checkpoint", shared["id"])
+                stack, seen_c = [shared], set()
+                while stack:
+                    c0 = stack.pop()
+                    if c0["id"] in seen_c:
+                        continue
+                    seen_c.add(c0["id"])
+                    for d in c0["deps"]:
+                        if d[0] == "ref":
+                            stack += [c1 for c1 in s["checkpoints"] if c1["id"] == d[1][1]]
+                        else:
+                            for o in (d[1], d[3]):
+                                if o[0] == "act":
+                                    a_anc |= {o[1][1]} | self.anc.get(o[1][1], set())
             elif G["dep"] is not None and rng.random() < 0.25:
                 # legal, redundant spelling: the action names the checkpoint its thread group already depends on
                 action["dep"] = G["dep"]
@@ -649,10 +668,14 @@ class Renderer:
         if o[0] == "lit":
             return {"value": lit_value(o[1], o[2])}
         if o[0] == "act":
-            return {"ref": ".".join([self.ref(o[1]), "object_promise"] + [self.attr_name(n) for n in o[2]])}
-        g = next((x for x in self.s["groups"] if x["id"] == o[1]), None)
-        v = self.var_name(g["var"]) if g else "$nosuchvar%d" % o[1]
-        return {"ref": ".".join([v] + [self.attr_name(n) for n in o[2]])}
+            out = {"ref": ".".join([self.ref(o[1]), "object_promise"] + [self.attr_name(n) for n in o[2]])}
+        else:
+            g = next((x for x in self.s["groups"] if x["id"] == o[1]), None)
+            v = self.var_name(g["var"]) if g else "$nosuchvar%d" % o[1]
+            out = {"ref": ".".join([v] + [self.attr_name(n) for n in o[2]])}
+        if self.descriptive and self.rng.random() < 0.4:
+            out["context"] = "RUNTIME"     # (the only value a comparison operand allows) when the reference is resolved: no effect on validity
+        return out
 
     def dep(self, d):
         if d[0] == "ref":
@@ -759,10 +782,13 @@ class Renderer:
             doc = {k: doc[k] for k in keys}
         if self.descriptive and rng.random() < 0.5:
             doc["zzz_unknown_property"] = {"anything": [1, 2, 3]}
-        if getattr(self, "ghost_used", None) and int(hashlib.sha1(json.dumps(sorted(self.ghost_used)).encode()).hexdigest(), 16) % 2 == (len(doc["actions"]) % 2):
+        if getattr(self, "ghost_used", None) and int(hashlib.sha1(json.dumps(sorted(self.ghost_used)).encode()).hexdigest(), 16) % 4 != (len(doc["actions"]) % 4):
             # the document itself carries an "imported_schemas" property (an unknown property for the specification:
             # what it holds is not an import) in which the unloaded schema's entities could be found
-            carried = copy.deepcopy(doc)
+            # (only the parties and object types: a carried copy of actions or checkpoints would take part in the
+            #  document-wide searches and fail for other reasons)
+            carried = {"standard": "carried", "parties": copy.deepcopy(doc["parties"]), "object_types": copy.deepcopy(doc["object_types"]),
+                       "object_promises": [], "actions": [], "checkpoints": [], "thread_groups": [], "pipelines": []}
             doc["imported_schemas"] = {f: copy.deepcopy(carried) for f in sorted(self.ghost_used)}
         return doc
 
